@@ -119,6 +119,55 @@ func run(cf cfg, path []int, depth int) (string, bool) {
 		c.Violate(lib.Violation{Sig: fmt.Sprintf("%s ops=%v cfg={%s}", what, names(path[:k+1]), cf), Detail: detail, Replay: map[string]any{"cfg": cf, "path": path[:k+1]}})
 		stop = true
 	}
+	type copyRec struct {
+		dst     string
+		data    []byte
+		ents    []entry
+		discard int64
+		rewound bool
+	}
+	var copies []copyRec
+	openCopy := func(dst string) (appendable.Appendable, error) {
+		if cf.Multi {
+			o := multiapp.DefaultOptions().WithFileSize(cf.FileSize).WithWriteBufferSize(cf.WBuf).WithPrealloc(cf.Prealloc).WithFileExt("aof").WithReadBufferSize(16).WithMaxOpenedFiles(cf.MaxOpen)
+			return multiapp.Open(dst, o)
+		}
+		return singleapp.Open(dst, singleapp.DefaultOptions().WithWriteBuffer(make([]byte, cf.WBuf)).WithReadBufferSize(16))
+	}
+	checkCopy := func(cr copyRec, what string) bool {
+		b, err := openCopy(cr.dst)
+		if err != nil {
+			fail(what+"-open", err.Error())
+			return false
+		}
+		defer b.Close()
+		bsz, _ := b.Size()
+		if !comp {
+			if bsz < int64(len(cr.data)) || ((!cr.rewound && !cf.Prealloc) && bsz != int64(len(cr.data))) {
+				fail(what+"-size", fmt.Sprintf("copy has size %d, source had %d when it was copied", bsz, len(cr.data)))
+				return false
+			} else if int64(len(cr.data)) > cr.discard {
+				buf := make([]byte, int64(len(cr.data))-cr.discard)
+				_, err := b.ReadAt(buf, cr.discard)
+				if err != nil || !bytes.Equal(buf, cr.data[cr.discard:]) {
+					fail(what+"-content", fmt.Sprintf("copy content %q err=%v want %q", buf, err, cr.data[cr.discard:]))
+					return false
+				}
+			}
+			return true
+		}
+		for _, e := range cr.ents {
+			if e.off < cr.discard {
+				continue
+			}
+			buf := make([]byte, len(e.data))
+			if _, err := b.ReadAt(buf, e.off); err != nil || !bytes.Equal(buf, e.data) {
+				fail(what+"-content", fmt.Sprintf("copy entry@%d = %q err=%v want %q", e.off, buf, err, e.data))
+				return false
+			}
+		}
+		return true
+	}
 	fill := byte('a')
 	sweep := func() {
 		sz, err := a.Size()
@@ -373,43 +422,33 @@ func run(cf cfg, path []int, depth int) (string, bool) {
 				fail("copy-err", err.Error())
 				break
 			}
-			// the copy, opened on its own, must hold the same log (when nothing was rewound: same size)
-			var b appendable.Appendable
-			var err error
-			if cf.Multi {
-				o := multiapp.DefaultOptions().WithFileSize(cf.FileSize).WithWriteBufferSize(cf.WBuf).WithPrealloc(cf.Prealloc).WithFileExt("aof").WithReadBufferSize(16).WithMaxOpenedFiles(cf.MaxOpen)
-				b, err = multiapp.Open(dst, o)
-			} else {
-				b, err = singleapp.Open(dst, singleapp.DefaultOptions().WithWriteBuffer(make([]byte, cf.WBuf)).WithReadBufferSize(16))
-			}
-			if err != nil {
-				fail("copy-open", err.Error())
+			// the copy, opened on its own, must hold the same log (when nothing was rewound: same size) - now and
+			// after whatever happens to the source later (re-verified after every later step that sweeps)
+			cr := copyRec{dst: dst, data: append([]byte{}, m.data...), ents: append([]entry{}, m.ents...), discard: m.discard, rewound: m.rewound}
+			if !checkCopy(cr, "copy") {
 				break
 			}
-			bsz, _ := b.Size()
-			if !comp {
-				if bsz < int64(len(m.data)) || ((!m.rewound && !cf.Prealloc) && bsz != int64(len(m.data))) {
-					fail("copy-size", fmt.Sprintf("copy has size %d, source %d", bsz, len(m.data)))
-				} else if int64(len(m.data)) > m.discard {
-					buf := make([]byte, int64(len(m.data))-m.discard)
-					_, err := b.ReadAt(buf, m.discard)
-					if err != nil || !bytes.Equal(buf, m.data[m.discard:]) {
-						fail("copy-content", fmt.Sprintf("copy content %q err=%v want %q", buf, err, m.data[m.discard:]))
-					}
-				}
-			} else {
-				for _, e := range m.ents {
-					if e.off < m.discard {
-						continue
-					}
-					buf := make([]byte, len(e.data))
-					if _, err := b.ReadAt(buf, e.off); err != nil || !bytes.Equal(buf, e.data) {
-						fail("copy-content", fmt.Sprintf("copy entry@%d = %q err=%v want %q", e.off, buf, err, e.data))
-						break
-					}
-				}
+			copies = append(copies, cr)
+			// and the other way round: a second copy is rewound and overwritten; the source must not notice (swept below)
+			dst2 := filepath.Join(dir, fmt.Sprintf("scribble%d", k))
+			if !cf.Multi {
+				dst2 += ".aof"
 			}
-			b.Close()
+			if err := a.Copy(dst2); err != nil {
+				fail("copy-err", err.Error())
+				break
+			}
+			if b, err := openCopy(dst2); err != nil {
+				fail("copy-open", err.Error())
+			} else {
+				if bsz, _ := b.Size(); bsz > m.discard {
+					if err := b.SetOffset(m.discard); err == nil {
+						b.Append(bytes.Repeat([]byte{'#'}, int(bsz-m.discard)))
+						b.Flush()
+					}
+				}
+				b.Close()
+			}
 		case 12:
 			if !cf.SweepAll && !last {
 				sweep()
@@ -424,6 +463,14 @@ func run(cf cfg, path []int, depth int) (string, bool) {
 		}
 		if cf.SweepAll || last {
 			sweep()
+			// copies taken earlier are independent of the source: they still hold what the source held then
+			if op != 11 {
+				for _, cr := range copies {
+					if stop || !checkCopy(cr, "copy-after-source-changed") {
+						break
+					}
+				}
+			}
 		}
 		if stop {
 			return "", true
